@@ -5,6 +5,7 @@ import (
 	"errors"
 	"fmt"
 	"io"
+	"sort"
 
 	"github.com/parquet-go/parquet-go"
 
@@ -78,7 +79,13 @@ func genOps(t *tape.Tape, n int) []WOp {
 		if k > left {
 			k = left
 		}
-		ops = append(ops, WOp{Op: "write", N: k})
+		if k > 0 && t.Chance(1, 12) {
+			// the next k rows as a row group of their own: a buffer declaring its sorting
+			// (by id, the order they are in) handed to WriteRowGroup
+			ops = append(ops, WOp{Op: "sortedrg", N: k})
+		} else {
+			ops = append(ops, WOp{Op: "write", N: k})
+		}
 		left -= k
 		if t.Chance(1, 4) {
 			ops = append(ops, WOp{Op: "flush"})
@@ -187,6 +194,14 @@ func (res *Written) RunOps(c *core.Ctx, ops []WOp, cursor int) {
 			if err != nil {
 				fail("write-empty-row-group", err)
 			}
+		case "sortedrg":
+			hi := min(cursor+op.N, res.Data.Len())
+			err := writeSortedRowGroup(w, res.Shape, res.Data, cursor, hi)
+			c.Event("op%d sortedrg %d %v", i, hi-cursor, err != nil)
+			if err != nil {
+				fail("write-sorted-row-group", err)
+			}
+			cursor = hi
 		}
 	}
 	err := w.Close()
@@ -291,4 +306,19 @@ func openFile(c *core.Ctx, data []byte, fo gen.FOpts) (*env.SimFile, *parquet.Fi
 	sf.EOFAtEnd = fo.EOFAtEnd
 	f, err := parquet.OpenFile(sf, sf.Size(), fo.Options()...)
 	return sf, f, err
+}
+
+// writeSortedRowGroup writes rows [lo, hi) as a buffer that declares its
+// sorting by id (the order the rows are in) through WriteRowGroup.
+func writeSortedRowGroup(w gen.Writer, sh gen.Shape, data gen.Data, lo, hi int) error {
+	if hi <= lo {
+		return nil
+	}
+	buf := sh.NewBuffer(gen.BGeneric, parquet.SortingRowGroupConfig(parquet.SortingColumns(parquet.Ascending("id"))))
+	if _, err := buf.Write(data, lo, hi); err != nil {
+		return err
+	}
+	sort.Sort(buf)
+	_, err := w.WriteRowGroup(buf)
+	return err
 }
